@@ -224,6 +224,12 @@ class Session:
         if kind == "age":
             Clock.virtual += 6.0
             return None
+        if kind == "save":
+            # the conversation state is serialised and restored between two events (what LLMRails does between calls)
+            from nemoguardrails.colang.v2_x.runtime.serialization import json_to_state, state_to_json
+
+            self.state = json_to_state(state_to_json(self.state))
+            return None
         if kind == "ev":
             d = {"type": f"Ev{item[1]}"}
             if item[2] is not None:
